@@ -365,6 +365,128 @@ impl PropCase for Probe {
     }
 }
 
+/// Position-generic probe: in a fixed valid file that uses every field of the grammar, the whole primitive
+/// field at TLF index `ti` (offset map of the reference encoder) is replaced by `lead` completed to the length
+/// its own TLF declares; checksums are recomputed. Oracle: the reference parser (accept/reject + content).
+pub struct Anywhere {
+    pub ti: usize,
+    pub lead: Vec<u8>,
+}
+
+pub fn anywhere_base() -> Encoded {
+    let f = AFile {
+        messages: vec![
+            AMsg {
+                transaction_id: vec![0xa1, 0xa2, 0xa3],
+                group_no: 1,
+                abort_on_error: 2,
+                body: ABody::Open(AOpen {
+                    codepage: Some(vec![0x63, 0x70]),
+                    client_id: Some(vec![0x63, 0x6c]),
+                    req_file_id: vec![0x72, 0x66],
+                    server_id: vec![0x73, 0x76],
+                    ref_time: Some(ATime::SecIndex(0x0102_0304)),
+                    sml_version: Some(1),
+                }),
+            },
+            AMsg {
+                transaction_id: vec![0xb1],
+                group_no: 3,
+                abort_on_error: 4,
+                body: ABody::GetList(AGetList {
+                    client_id: Some(vec![0x11]),
+                    server_id: vec![0x12, 0x13],
+                    list_name: Some(vec![0x14]),
+                    act_sensor_time: Some(ATime::SecIndex(5)),
+                    val_list: vec![
+                        AEntry {
+                            obj_name: vec![1, 0, 1, 8, 0, 255],
+                            status: Some(AStatus::S16(0x0182)),
+                            val_time: Some(ATime::SecIndex(0x0a0b)),
+                            unit: Some(30),
+                            scaler: Some(-1),
+                            value: AValue::I32(-70000),
+                            value_signature: Some(vec![0x51, 0x52]),
+                        },
+                        AEntry {
+                            obj_name: vec![1, 0, 2, 8, 0, 255],
+                            status: None,
+                            val_time: None,
+                            unit: None,
+                            scaler: None,
+                            value: AValue::List(ATime::SecIndex(9)),
+                            value_signature: None,
+                        },
+                    ],
+                    list_signature: Some(vec![0x61]),
+                    act_gateway_time: Some(ATime::SecIndex(0xffff_fffe)),
+                }),
+            },
+            AMsg {
+                transaction_id: vec![0xc1, 0xc2],
+                group_no: 0,
+                abort_on_error: 0,
+                body: ABody::Close(AClose { global_signature: Some(vec![0x71, 0x72, 0x73]) }),
+            },
+        ],
+    };
+    encode_canonical(&f)
+}
+
+impl PropCase for Anywhere {
+    fn to_case(&self) -> Case {
+        Case::new("anywhere").n("ti", self.ti).h("lead", &self.lead)
+    }
+    fn from_case(c: &Case) -> Result<Self, String> {
+        Ok(Anywhere { ti: c.num("ti")?, lead: c.bytes("lead")? })
+    }
+    fn check(&self, ctx: &mut Ctx) -> Verdict {
+        let base = anywhere_base();
+        if self.ti >= base.map.tlfs.len() {
+            return Ok(());
+        }
+        let t = base.map.tlfs[self.ti];
+        let field = complete_field(&self.lead);
+        let c = if t.ty == RTy::List {
+            crate::gen::corrupt::replace_tlf(&base, self.ti, &field, true, "anywhere")
+        } else {
+            crate::gen::corrupt::replace_field(&base, self.ti, &field, true)
+        };
+        let x = c.bytes;
+        let r = ref_parse(&x);
+        let got = run_complete(&x);
+        let st = run_streaming(&x, 0);
+        let st_res = match st.first_err {
+            None => crate::conv::reassemble(&st.events, true).map_err(|_| ()),
+            Some(_) => Err(()),
+        };
+        let ok_c = match (&r, &got) {
+            (Ok(a), Ok(b)) => a == b,
+            (Err(_), Err(_)) => true,
+            _ => false,
+        };
+        let ok_s = match (&r, &st_res) {
+            (Ok(a), Ok(b)) => a == b,
+            (Err(_), Err(_)) => true,
+            _ => false,
+        };
+        if !ok_c || !ok_s {
+            return Err(Fail::new(
+                &format!("anywhere/{:?}/{}", t.role, if !ok_c { "complete" } else { "streaming" }),
+                format!("reference reading with the field {} at the {:?} position: {:?}", hex_short(&field), t.role, r.as_ref().map(|f| f.messages.len())),
+                format!("complete: {:?} ; streaming: err={:?} events={}", got.as_ref().map(|f| f.messages.len()).map_err(|e| e.name()), st.first_err.map(|e| e.name()), st.events.len()),
+            ));
+        }
+        let oc = if r.is_ok() { "accepted" } else { "rejected" };
+        ctx.class_s(&format!("anywhere role={:?} {}", t.role, oc));
+        ctx.bump(&format!("floor:anywhere:{}", oc));
+        if ctx.want_sample("anywhere") {
+            ctx.sample("anywhere", || format!("role={:?} field={} -> {} by reference and by both parsers", t.role, hex_short(&field), oc));
+        }
+        Ok(())
+    }
+}
+
 fn directed_tlfs() -> Vec<Vec<u8>> {
     let mut v = Vec::new();
     let mut vals: Vec<u128> = Vec::new();
@@ -445,6 +567,47 @@ pub fn run(ctx: &mut Ctx) {
             let pos = [Pos::Tid, Pos::ListLen, Pos::Value][i % 3];
             let v = ctx.rng.next_u64();
             ctx.eval(&Probe { pos, lead: vec![(v >> 16) as u8, (v >> 8) as u8, v as u8] });
+        }
+    }
+    // ---- position-generic probes at every TLF position of a file that uses every field of the grammar
+    {
+        let ntl = anywhere_base().map.tlfs.len();
+        let all2 = !ctx.quick();
+        let mut n_any = 0u64;
+        for ti in 0..ntl {
+            for v in 0..256u32 {
+                if ctx.mine((ti as u64) * 256 + v as u64) {
+                    ctx.eval(&Anywhere { ti, lead: vec![v as u8] });
+                    n_any += 1;
+                }
+            }
+            if all2 {
+                for v in 0..65536u32 {
+                    if ctx.mine(v as u64 + ti as u64) {
+                        ctx.eval(&Anywhere { ti, lead: vec![(v >> 8) as u8, v as u8] });
+                        n_any += 1;
+                    }
+                }
+            }
+        }
+        ctx.exhaustive_space(
+            if all2 { "every 1- and 2-byte lead substituted at every TLF position of the all-fields file" } else { "every 1-byte lead substituted at every TLF position of the all-fields file" },
+            n_any,
+        );
+        if !all2 {
+            let n = ctx.count(60_000, 0);
+            for _ in 0..n {
+                let ti = ctx.rng.below(ntl);
+                let v = ctx.rng.next_u64();
+                let lead = if ctx.rng.chance(2, 3) { vec![(v >> 8) as u8, v as u8] } else { vec![(v >> 16) as u8, (v >> 8) as u8, v as u8] };
+                ctx.eval(&Anywhere { ti, lead });
+            }
+        }
+        for (i, t) in directed_tlfs().into_iter().enumerate() {
+            if ctx.mine(i as u64) {
+                let ti = ctx.rng.below(ntl);
+                ctx.eval(&Anywhere { ti, lead: t });
+            }
         }
     }
     // ---- directed: TLFs of up to 12 bytes around 2^32, leading zero groups, bad continuation bytes
@@ -552,6 +715,8 @@ pub fn floors() -> Vec<String> {
         "floor:tlf:reserved-rejected".into(),
         "floor:tlf:nextbyte-rejected".into(),
         "floor:tlf:multibyte-accepted".into(),
+        "floor:anywhere:accepted".into(),
+        "floor:anywhere:rejected".into(),
     ];
     for p in ["tid", "listlen", "value", "groupno", "bodytag", "scaler", "status", "time"] {
         v.push(format!("floor:pos:{}:value", p));
@@ -568,4 +733,5 @@ to the length the REFERENCE TLF decoder prescribes (capped at 64 KiB, beyond tha
 Directed: TLFs of up to 12 bytes with nibble values 2^32-1-k .. 2^32+k (k<=16), 2^36, 2^44-1, with 0..3 leading zero groups; every continuation byte with non-zero type bits; reserved first bytes; booleans all 256 bytes; \
 integers of width 1..9 x signed/unsigned x leading byte in {00,01,7f,80,fe,ff} at value / status / scaler / group-no / time positions; strings of every length 0..300 and up to 70000 with position-dependent content; nested list-typed values and both time encodings. \
 Oracle: value <=> value with equal content and variant, error <=> error (which error is not compared); the same bytes with a valid checksum go through complete::parse against the reference parser. \
-Distinct/non-trivial = distinct (position, reference TLF outcome [type, TLF size | error class], value/error) tuples";
+Position-generic probes: in a valid file that uses every field of the grammar (offset map of the reference encoder) the field at every TLF position is replaced by every 1-byte (thorough: and every 2-byte) lead, completed, checksums recomputed; oracle = reference parser (accept/reject + content) for both parsers. \
+Distinct/non-trivial = distinct (position, reference TLF outcome [type, TLF size | error class], value/error) tuples and (grammar role, accepted/rejected) pairs";
